@@ -545,7 +545,7 @@ class ActionTypeHint(Action):
                 if is_subclass_spec(prev_val) and "init_args" in prev_val:
                     ActionTypeHint.discard_init_args_on_class_path_change(
                         self,
-                        prev_val.init_args,
+                        prev_val["init_args"],
                         val.get("init_args"),
                     )
         cfg.update(val, self.dest)
